@@ -38,6 +38,86 @@ class HarnessError(Exception):
     """A bug or nondeterminism leak in the verification machinery itself (exit 2)."""
 
 
+class CallDidNotReturn(BaseException):
+    """Raised (in the main thread) by the last-resort watchdog when one call into the library has been on some
+    thread's stack for WD_TICK * WD_HITS seconds of this process's user CPU time. BaseException so that the
+    library's own `except Exception` clauses cannot swallow it. `.where` = qualified name of the outermost library
+    function of that call, `.stack` = its library frames outermost -> innermost, `.harness` = the harness frame that
+    made the call (file:line + short repr of its locals)."""
+
+    def __init__(self, where, stack, harness):
+        super().__init__(where)
+        self.where, self.stack, self.harness = where, stack, harness
+
+
+WD_TICK = 10.0  # user-CPU seconds between looks (ITIMER_VIRTUAL: machine load cannot trigger it)
+WD_HITS = int(os.environ.get("VERIF_HANG_TICKS", "6"))  # same call still running at this many consecutive looks
+_WD = {"pid": None, "frames": [], "hits": 0}
+
+
+def _lib_prefix():
+    return os.path.realpath(REPO) + os.sep + "operon_ai" + os.sep
+
+
+def _on_vtalrm(signum, frame):  # pragma: no cover - only when a call spins
+    pre = _lib_prefix()
+    cur = []
+    for f in sys._current_frames().values():
+        outer = None
+        g = f
+        while g is not None:
+            if os.path.realpath(g.f_code.co_filename).startswith(pre):
+                outer = g
+            g = g.f_back
+        if outer is not None:
+            cur.append((outer, f))
+    old = _WD["frames"]
+    kept = [(o, f) for (o, f) in cur if any(o is o2 for o2 in old)]
+    _WD["frames"] = [o for o, _ in cur]
+    if not kept:
+        _WD["hits"] = 0
+        return
+    _WD["hits"] += 1
+    if _WD["hits"] < WD_HITS:
+        return
+    outer, inner = kept[0]
+    stack = []
+    g = inner
+    while g is not None and g is not outer.f_back:
+        stack.append(f"{getattr(g.f_code, 'co_qualname', g.f_code.co_name)} ({os.path.basename(g.f_code.co_filename)}:{g.f_lineno})")
+        g = g.f_back
+    stack.reverse()
+    h = outer.f_back
+    harness = "?"
+    if h is not None:
+        loc = {}
+        for k, v in list(h.f_locals.items())[:12]:
+            try:
+                loc[k] = repr(v)[:160]
+            except BaseException:  # noqa: BLE001
+                loc[k] = "<unrepresentable>"
+        harness = f"{h.f_code.co_filename}:{h.f_lineno} in {h.f_code.co_name} locals={loc}"
+    _WD["hits"] = 0
+    _WD["frames"] = []
+    raise CallDidNotReturn(getattr(outer.f_code, "co_qualname", outer.f_code.co_name), stack, harness)
+
+
+def arm_watchdog():
+    """Last-resort guard against a library call that never returns (a spinning loop): once per process (forked
+    workers re-arm; interval timers are not inherited). Checks that own a sharper per-call guard (C01, C16) are
+    unaffected: those use other timers and fire earlier."""
+    import signal
+    import threading
+
+    if _WD["pid"] == os.getpid() or os.environ.get("VERIF_NO_WATCHDOG"):
+        return
+    if threading.current_thread() is not threading.main_thread():
+        return
+    _WD.update(pid=os.getpid(), frames=[], hits=0)
+    signal.signal(signal.SIGVTALRM, _on_vtalrm)
+    signal.setitimer(signal.ITIMER_VIRTUAL, WD_TICK, WD_TICK)
+
+
 def bind_repo():
     """Make `import operon_ai` resolve to REPO's current working tree."""
     sys.dont_write_bytecode = True
@@ -202,9 +282,18 @@ class Ctx:
 _WORK_FN = None
 
 
+_HUNG = []
+
+
 def _call(arg):
+    if _HUNG:  # this worker already met a call that does not return: do not burn the budget again per item
+        return ("hang", _HUNG[0])
     try:
+        arm_watchdog()
         return ("ok", _WORK_FN(arg))
+    except CallDidNotReturn as e:
+        _HUNG.append((e.where, e.stack, e.harness))
+        return ("hang", _HUNG[0])
     except BaseException as e:  # noqa: BLE001 - report worker crashes loudly
         return ("err", "".join(traceback.format_exception(type(e), e, e.__traceback__)))
 
@@ -222,6 +311,9 @@ def pmap(fn, items, nproc=None, chunksize=1):
     with ctx.Pool(nproc) as pool:
         res = pool.map(_call, items, chunksize)
     out = []
+    for tag, val in res:
+        if tag == "hang":
+            raise CallDidNotReturn(*val)
     for tag, val in res:
         if tag == "err":
             raise HarnessError("worker crashed:\n" + val)
